@@ -28,6 +28,14 @@ type Mutant struct {
 	Expect   string `json:"expect"` // regexp on the obligation key that must fail
 	Note     string `json:"note,omitempty"`
 	Survives bool   `json:"survives,omitempty"` // documented: not detectable by this family
+	More     []Edit `json:"more,omitempty"`     // further edits of the same mutant (other hunks / files)
+}
+
+// Edit is one additional textual edit of a mutant.
+type Edit struct {
+	File string `json:"file"`
+	Old  string `json:"old"`
+	New  string `json:"new"`
 }
 
 func loadMutants(out string) ([]Mutant, error) {
@@ -62,14 +70,30 @@ func runMutant(m Mutant, repo string) mutResult {
 		return mutResult{m.ID, "n/a", err.Error()}
 	}
 	if strings.Count(string(src), m.Old) != 1 {
-		return mutResult{m.ID, "n/a", fmt.Sprintf("anchor text occurs %d times in %s (tree edited since the mutant was written)", strings.Count(string(src), m.Old), m.File)}
+		return mutResult{m.ID, "stale", fmt.Sprintf("anchor text occurs %d times in %s (tree edited since the mutant was written)", strings.Count(string(src), m.Old), m.File)}
 	}
 	mutated := strings.Replace(string(src), m.Old, m.New, 1)
+	overlay := map[string][]byte{path: []byte(mutated)}
+	for _, e := range m.More {
+		ep := filepath.Join(repo, e.File)
+		cur, ok := overlay[ep]
+		if !ok {
+			b, err := os.ReadFile(ep)
+			if err != nil {
+				return mutResult{m.ID, "n/a", err.Error()}
+			}
+			cur = b
+		}
+		if strings.Count(string(cur), e.Old) != 1 {
+			return mutResult{m.ID, "stale", fmt.Sprintf("anchor text of an additional edit occurs %d times in %s", strings.Count(string(cur), e.Old), e.File)}
+		}
+		overlay[ep] = []byte(strings.Replace(string(cur), e.Old, e.New, 1))
+	}
 	pr := properties[m.Property]
 	if pr == nil {
 		return mutResult{m.ID, "n/a", "unknown property"}
 	}
-	obs, _, _, err := runConfig(pr, configSpec{"mutant", LoadOpts{Dir: repo, Overlay: map[string][]byte{path: []byte(mutated)}}}, "quick")
+	obs, _, _, err := runConfig(pr, configSpec{"mutant", LoadOpts{Dir: repo, Overlay: overlay}}, "quick")
 	if err != nil {
 		return mutResult{m.ID, "invalid", err.Error()}
 	}
